@@ -826,7 +826,7 @@ pub fn run(run: &mut Run) {
         "wall-clock watchdog of 60 s per scenario only bounds how long we look; scenarios take milliseconds".into(),
     ];
     let miri = cfg!(miri);
-    let n = if miri { 3 } else { run.tier.n(240, 6000) };
+    let n = if miri { 3 } else { run.tier.n(480, 12_000) };
     run.sub_seq("normal-runs", n, move |l, idx, rng| {
         if HUNG.load(Ordering::SeqCst) {
             return;
@@ -864,7 +864,7 @@ pub fn run(run: &mut Run) {
             });
         }
     });
-    let nf = if miri { 2 } else { run.tier.n(48, 800) };
+    let nf = if miri { 2 } else { run.tier.n(96, 1600) };
     run.sub_seq("fault-injection", nf, move |l, idx, rng| {
         if HUNG.load(Ordering::SeqCst) {
             l.count("scenarios_skipped_after_a_hang");
